@@ -837,6 +837,14 @@ func hLock(e *Exec, st *State, fv FuncV, a []Value, cc *ssa.CallCommon) Value {
 		st.heldNames = map[string]string{}
 	}
 	st.heldNames[k] = e.mutexName(st, p, cc)
+	if len(e.ob.Critical) > 0 {
+		n := make(map[string]int, len(st.lockEpochs)+1)
+		for kk, vv := range st.lockEpochs {
+			n[kk] = vv
+		}
+		n[st.heldNames[k]]++
+		st.lockEpochs = n
+	}
 	return nil
 }
 
